@@ -23,13 +23,14 @@ import GrassProofs.Lemmas.ModuleLoader
       (7) every `@use`/`@forward` cycle is reported as an error.
 
   Proved here: (1) (2) (3) (4) in full for the model; (5) for `@use … with` of a module without
-  `@forward` (`C12_with_unknown_is_error`, `C12_with_after_load_is_error`,
+  `@forward` (`C12_with_unknown_is_error_partial`, `C12_with_after_load_is_error`,
   `C12_with_never_overrides_plain`) — the statement for configurations threaded through
   `@forward … with` is not proved, and the code violates it (`C12_asFound_forward_with_unchecked`);
   (6) as alias sameness of the generated table; (7) as the active-set invariant: a load that
-  resolves to a module under evaluation is an error (`C12_cycle_is_error`) and the active set is
-  exactly restored by every successful load (`C12_active_restored`), so a module can never finish
-  loading while one of its (transitive) loads resolves to itself.
+  resolves to a module under evaluation is an error (`C12_cycle_is_error`), the active set is
+  exactly restored by every successful load (`C12_active_restored`), and the cache of every run
+  is a well-founded graph (`C12_module_graph_wellfounded`, `C12_no_dependency_cycle`): no module
+  ever completes loading while depending on itself.
 -/
 namespace Grass.Module
 
@@ -170,6 +171,69 @@ theorem C12_self_load_is_error (sw : Switches) (proj : Project) (fuel : Nat) (ur
   rw [(evalStmts_restores sw _ (load_restores sw proj (fuel + 1)) body env c st r hok).1]
   exact hin
 
+/-- A successful compilation ends with the entry as the only active module. -/
+theorem C12_run_active_restored (sw : Switches) (proj : Project) (entry : Ident) (h : resErr (run sw proj entry).res = none) :
+    (run sw proj entry).st.active = [entry] := by
+  revert h
+  unfold run
+  split
+  · simp [resErr]
+  · rename_i src _
+    simp only
+    split
+    · simp [resErr]
+    · have hr := evalStmts_restores sw (load sw proj (proj.length + 1)) (load_restores sw proj _) src.body (Env.new entry)
+        Cfg.empty ⟨[], [entry], [entry], []⟩
+      generalize evalStmts sw (load sw proj (proj.length + 1)) src.body (Env.new entry) Cfg.empty
+        ⟨[], [entry], [entry], []⟩ = o at hr
+      cases hres : o.res with
+      | error e => simp [resErr]
+      | ok r => intro _; exact (hr r hres).1
+
+/-- module `i` of the cache refers to module `j` (forwards it, uses it under a namespace or `as *`) -/
+def dependsOn (ms : List Mod) (i j : Nat) : Prop :=
+  ∃ m, modAt ms i = some m ∧ ((∃ f ∈ m.fwds, f.target = j) ∨ j ∈ m.globals ∨ (∃ e ∈ m.nss, e.2 = j))
+
+/-- **The module graph is well-founded.** Whatever the project, every reference a completed
+    module holds points to a module that was completed before it (so `scopeView`, which looks
+    forwards up in the older part of the cache, sees every forwarded module). -/
+theorem C12_module_graph_wellfounded (sw : Switches) (proj : Project) (entry : Ident) :
+    ModsWF (run sw proj entry).st.mods := by
+  have h0 : ModsWF ([] : List Mod) := by intro i m h; simp [modAt] at h
+  unfold run
+  split
+  · exact h0
+  · rename_i src _
+    simp only
+    split
+    · exact h0
+    · have := evalStmts_graph sw (load sw proj (proj.length + 1)) (load_graph sw proj _) src.body (Env.new entry) Cfg.empty
+        ⟨[], [entry], [entry], []⟩ h0 (by simp [EnvBelow, Env.new])
+      generalize evalStmts sw (load sw proj (proj.length + 1)) src.body (Env.new entry) Cfg.empty
+        ⟨[], [entry], [entry], []⟩ = o at this
+      cases o.res <;> exact this.1
+
+/-- **No dependency cycle can ever be completed**: in the cache of any run — successful or not — no
+    module depends, directly or transitively, on itself.  Together with `C12_cycle_is_error` (the
+    attempt is an error) this is the statement that `@use`/`@forward` cycles never load. -/
+theorem C12_no_dependency_cycle (sw : Switches) (proj : Project) (entry : Ident) (i : Nat) :
+    ¬ Relation.TransGen (dependsOn (run sw proj entry).st.mods) i i := by
+  have hw := C12_module_graph_wellfounded sw proj entry
+  have step : ∀ a b, dependsOn (run sw proj entry).st.mods a b → b < a := by
+    intro a b ⟨m, hm, hd⟩
+    have := hw a m hm
+    rcases hd with ⟨f, hf, rfl⟩ | hg | ⟨e, he, rfl⟩
+    · exact this.1 f hf
+    · exact this.2.1 b hg
+    · exact this.2.2 e he
+  have lt : ∀ a b, Relation.TransGen (dependsOn (run sw proj entry).st.mods) a b → b < a := by
+    intro a b h
+    induction h with
+    | single h => exact step _ _ h
+    | tail _ h ih => exact Nat.lt_trans (step _ _ h) ih
+  intro h
+  exact Nat.lt_irrefl _ (lt i i h)
+
 /-! ## (2) privacy -/
 
 /-- **Private members are never visible.** Whatever a module's scope hands out — through `@use`,
@@ -227,6 +291,11 @@ theorem C12_forward_keys_complete (k : Kind) (ms : List Mod) (id : Nat) (n : Ide
     (h : ((scopeView .spec k ms id).get n).isSome = true) : n ∈ (scopeView .spec k ms id).keys :=
   (good_scopeView .spec rfl k ms id).complete n h
 
+/-- … and, for every switch setting, nothing is listed that cannot be referenced. -/
+theorem C12_forward_keys_sound (sw : Switches) (k : Kind) (ms : List Mod) (id : Nat) (n : Ident)
+    (h : n ∈ (scopeView sw k ms id).keys) : ((scopeView sw k ms id).get n).isSome = true :=
+  sound_scopeView sw k ms id n h
+
 /-- The fix for D7 is what makes the first theorem true also with the other switches as found:
     with `ignoreLists := false` and without a prefix the code's forward view is the specified one. -/
 theorem C12_forward_view_now_without_prefix (k : Kind) (vis : Vis) (v : View) (hv : v.Good) (n : Ident) :
@@ -235,7 +304,7 @@ theorem C12_forward_view_now_without_prefix (k : Kind) (vis : Vis) (v : View) (h
   simp only [Switches.now, Bool.false_eq_true, if_false, prefixBy, stripPfx]
   rw [limitBy_get vis k v hv n]
 
-private def mA : Mod := ⟨['a'], [(['x'], 1), (['y'], 2), (['-', 'p'], 3)], [(['f'], .const)], [['m']], [], []⟩
+private def mA : Mod := ⟨['a'], [(['x'], 1), (['y'], 2), (['-', 'p'], 3)], [(['f'], .const)], [['m']], [], [], []⟩
 
 /-- Witness for D7 (the pinned tree): `@forward "a" show $x` exposed `$y` as well. -/
 theorem C12_asFound_forward_ignores_show_hide :
@@ -258,7 +327,7 @@ theorem C12_asFound_prefix_hide_loses_members :
 theorem C12_asFound_prefixed_keys_incomplete :
     ∃ (ms : List Mod) (id : Nat) (n : Ident),
       ((scopeView .now .var ms id).get n).isSome = true ∧ n ∉ (scopeView .now .var ms id).keys :=
-  ⟨[⟨['m', 'i', 'd'], [], [], [], [⟨⟨some ['p', '-'], .all⟩, 0⟩], []⟩, mA], 1, ['p', '-', 'x'], by decide⟩
+  ⟨[⟨['m', 'i', 'd'], [], [], [], [⟨⟨some ['p', '-'], .all⟩, 0⟩], [], []⟩, mA], 1, ['p', '-', 'x'], by decide⟩
 
 /-! ## (3) assignment through a namespace -/
 
@@ -407,8 +476,10 @@ theorem evalStmts_keeps_cfg (sw : Switches) (loadF : LoadF) (n : Ident) :
 /-- **`with` of a variable that is not configurable is an error.** If the `with` clause of a
     `@use` names `n`, and the module it loads (for the first time) has no `!default` declaration of
     `n` and no `@forward`, the `@use` fails — the variable may exist without `!default`, or not at
-    all. -/
-theorem C12_with_unknown_is_error (sw : Switches) (proj : Project) (fuel : Nat) (url : Url) (ns : UseNs)
+    all.  PARTIAL with respect to (5): modules that `@forward` (where the configuration is threaded
+    on, possibly through prefix/show/hide views and further `with` clauses) are not covered; for
+    those the code deviates (`C12_asFound_forward_with_unchecked`). -/
+theorem C12_with_unknown_is_error_partial (sw : Switches) (proj : Project) (fuel : Nat) (url : Url) (ns : UseNs)
     (withs : List (Ident × Val)) (n : Ident) (env : Env) (cfg : Cfg) (st : St) (src : ModSrc)
     (hres : resolve proj url = some src) (hn : (withs.lookup n).isSome = true)
     (hbody : ∀ s ∈ src.body, keepsCfg n s = true) :
@@ -537,6 +608,11 @@ example : diamond.wf = true ∧ resErr (run .now diamond ['e']).res = none ∧
     (run .now diamond ['e']).st.entered = [['e'], ['b'], ['a'], ['c']] ∧
     cssOf (run .now diamond ['e']).st.trace = [['a'], ['b'], ['c'], ['e']] ∧
     (run .now diamond ['e']).st.trace.getLast? = some (.probe 1 (.val 9)) := by decide
+
+-- the cache of the diamond has real dependency edges (b → a, c → a), all pointing backwards
+example : (modAt (run .now diamond ['e']).st.mods 1).map (·.nss) = some [(['a'], 0)] ∧
+    (modAt (run .now diamond ['e']).st.mods 2).map (·.nss) = some [(['n'], 0)] ∧
+    (modAt (run .now diamond ['e']).st.mods 0).map (·.path) = some ['a'] := by decide
 
 -- cycles of length 2 (through @use) and through @forward are errors
 example : resErr (run .now [⟨['a'], false, [.use ⟨['b'], false⟩ .dflt []]⟩, ⟨['b'], false, [.use ⟨['a'], false⟩ .dflt []]⟩,
